@@ -374,8 +374,7 @@ def _excluded(route, kind, log, opname, cat, operand):
 
 def _defect(route, kind, log, opname, cat):
     """SUSPECTED_DEFECTS: async iteration of StrictUndefined does not fail; logging variants do not log async iteration."""
-    async_iter = (route == "atpl" and cat == "iter") or (route == "py" and cat == "aiter")
-    return async_iter and (kind == "strict" or log)
+    return False  # both repaired in /repo (StrictUndefined.__aiter__, LoggingUndefined.__aiter__); nothing excluded
 
 
 def KNOWN(case):
